@@ -236,8 +236,8 @@ def parts(tier):
     return [Part('progress_enum',  enum=progress_enum),
             Part('bootstrap_enum', enum=bootstrap_enum),
             Part('cause_orders_enum', enum=cause_enum),
-            Part('notify_histories', notify_cases(), quick=1000, thorough=12000),
-            Part('cause_histories',  cause_cases(),  quick=500,  thorough=8000)]
+            Part('notify_histories', notify_cases(), quick=1000, thorough=8000),
+            Part('cause_histories',  cause_cases(),  quick=500,  thorough=6000)]
 
 
 # ------------------------------------------------------------------------------
